@@ -227,7 +227,9 @@ func (t *WSTransport) getOrDial(ctx context.Context, opts common.Options) (*wsCo
 	t.mu.Lock()
 	delete(t.dialing, key)
 
-	if err == nil {
+	// A connection that was already shut down (upstream dropped it right after
+	// the handshake) has run its removeConn already; pooling it would leak the entry.
+	if err == nil && !conn.isClosed() {
 		t.conns[key] = conn
 	}
 	t.mu.Unlock()
